@@ -17,6 +17,9 @@ def witem? : Sexp → Option WItem
   | .list [k, er, sup] => do
     let id ← k.nat?; let e ← optNat? er; let s ← sup.bool?
     pure { id := id, enterRaises := e, suppress := s }
+  | .list [k, er, sup, br] => do
+    let id ← k.nat?; let e ← optNat? er; let s ← sup.bool?; let b ← optNat? br
+    pure { id := id, enterRaises := e, suppress := s, bindRaises := b }
   | _ => none
 
 mutual
